@@ -41,7 +41,7 @@ ANCHORS = ['debian._deb822_repro.tokens:whitespace_split_tokenizer.<func>', 'deb
            'debian._deb822_repro.parsing:ValueReference.remove']
 MUST_REACH = ANCHORS
 FLOORS = {'quick': {'nontrivial': 2500, 'monitors': {'M.read': 5000, 'M.noop': 5000, 'M.edit': 4000, 'M.writeback': 4000, 'M.abort': 1200, 'K5': 4000},
-                    'counters': {'op:append': 1000, 'op:comment+append': 300, 'op:remove': 800, 'op:replace': 800, 'op:ref-set': 800, 'op:ref-remove': 800, 'op:iter-remove': 120, 'op:ref-after-replace': 300,
+                    'counters': {'op:append': 1000, 'op:comment+append': 300, 'op:remove': 800, 'op:replace': 800, 'op:ref-set': 800, 'op:ref-remove': 800, 'op:iter-remove': 120, 'op:ref-after-replace': 300, 'refused:remove:former-value': 450, 'refused:remove:never-a-value': 450, 'refused:replace:former-value': 450, 'refused:replace:never-a-value': 450,
                                  'layout:first-line-blank': 200, 'layout:comment-inside': 800, 'layout:multi-line-item': 250,
                                  'layout:comment-inside-item': 200, 'layout:comment-inside-last-item': 80, 'layout:multi-line-item-starting-with-hash': 100, 'layout:blank-other-than-one-space-inside-item': 900, 'config:after/value_formatter': 250,
                                  'config:before/value_formatter': 120, 'config:mid/value_formatter': 130, 'config:after/value_formatter_force': 130,
@@ -49,7 +49,7 @@ FLOORS = {'quick': {'nontrivial': 2500, 'monitors': {'M.read': 5000, 'M.noop': 5
           'thorough': {'nontrivial': 150000, 'monitors': {'M.read': 300000, 'M.noop': 300000, 'M.edit': 250000, 'M.writeback': 250000,
                                                           'M.abort': 80000, 'K5': 250000},
                        'counters': {'op:append': 60000, 'op:comment+append': 18000, 'op:remove': 50000, 'op:replace': 50000, 'op:ref-set': 50000,
-                                    'op:ref-remove': 50000, 'op:iter-remove': 8000, 'op:ref-after-replace': 30000, 'layout:first-line-blank': 12000, 'layout:comment-inside': 50000, 'layout:multi-line-item': 30000,
+                                    'op:ref-remove': 50000, 'op:iter-remove': 8000, 'op:ref-after-replace': 30000, 'refused:remove:former-value': 50000, 'refused:remove:never-a-value': 50000, 'refused:replace:former-value': 50000, 'refused:replace:never-a-value': 50000, 'layout:first-line-blank': 12000, 'layout:comment-inside': 50000, 'layout:multi-line-item': 30000,
                                     'layout:comment-inside-item': 20000, 'layout:comment-inside-last-item': 8000, 'layout:multi-line-item-starting-with-hash': 9000, 'layout:blank-other-than-one-space-inside-item': 90000, 'config:after/value_formatter': 25000,
                                     'config:before/value_formatter': 12000, 'config:mid/value_formatter': 13000, 'config:after/value_formatter_force': 13000,
                                     'config:after/no_reformatting_when_finished': 13000}}}
@@ -199,6 +199,7 @@ def gen_ops(r, comma, nvals, uid):
 
 def cases(ctx):
     r = ctx.rng('layouts')
+    rr = ctx.rng('refused-edits')
     for _ in range(ctx.size(7000, 900000)):
         comma = r.random() < .5
         ftxt, vals, flags = gen_layout(r, comma)
@@ -207,6 +208,18 @@ def cases(ctx):
                 'pos': r.choice(['mid', 'mid', 'last', 'first']), 'final_nl': r.random() < .7,
                 'reformat': r.random() < .3, 'key': r.choice(['F', 'F', 'f']), 'ops': gen_ops(r, comma, len(vals), uid),
                 'shared_view': r.random() < .5, 'abort': r.choice([None, None, None, 'exception', 'unclosed', 'failed-close'])}
+        if rr.random() < .35:
+            # refused by-value edits inside the session, followed by edits through value references and by-value edits of the
+            # new / the former text (own stream; the 'layouts' stream is untouched)
+            extra = [['refused', rr.choice(['remove', 'replace']), rr.choice(['absent', 'former'])]]
+            if rr.random() < .75:
+                k = rr.randrange(50)
+                extra.append(['ref-set', k, 'RN%d' % rr.randrange(10 ** 6)])
+                for _ in range(rr.choice([1, 2, 2])):
+                    extra.append(rr.choice([['replace', k, 'RR%d' % rr.randrange(10 ** 6)], ['refused', 'remove', 'former'],
+                                            ['refused', 'replace', 'former'], ['remove', k]]))
+            pos = rr.randint(0, len(case['ops']))
+            case['ops'][pos:pos] = extra
         if r.random() < .3:
             calls = ['reformat_when_finished', 'no_reformatting_when_finished', 'value_formatter', 'value_formatter', 'value_formatter_force']
             case['config'] = [[r.choice(['before', 'mid', 'after', 'after']), r.choice(calls)] for _ in range(r.choice([1, 1, 2]))]
@@ -389,6 +402,7 @@ def run_case(ctx, case):
                         from debian._deb822_repro.formatter import one_value_per_line_trailing_separator as fmt
                         l.value_formatter(fmt, force_reformat=(call == 'value_formatter_force'))
             configure('before')
+            former = []
             for step, op in enumerate(case['ops']):
                 kind = op[0]
                 if step == len(case['ops']) // 2:
@@ -405,6 +419,21 @@ def run_case(ctx, case):
                         l.append_comment(op[2])
                     l.append(op[1])
                     model.append(op[1])
+                elif kind == 'refused':
+                    # a by-value removal / replacement of a text that is NOT a value of the list (never was, or was one until
+                    # an earlier edit of this session replaced it): refused or ignored - either way the list is as before
+                    cand = [v for v in former if v not in model]
+                    use_former = op[2] == 'former' and bool(cand)
+                    v = cand[-1] if use_former else 'ABSENT-%d' % step
+                    ctx.count('refused:%s:%s' % (op[1], 'former-value' if use_former else 'never-a-value'))
+                    try:
+                        if op[1] == 'remove':
+                            l.remove(v)
+                        else:
+                            l.replace(v, 'REPL-%d' % step)
+                        ctx.count('refused:not-raised')
+                    except ValueError:
+                        ctx.count('refused:raised-ValueError')
                 elif kind == 'remove':
                     k = op[1] % len(model)
                     if len(model) < 2:
@@ -412,11 +441,13 @@ def run_case(ctx, case):
                     v = model[k]
                     l.remove(v)
                     model.remove(v)
+                    former.append(v)
                 elif kind == 'replace':
                     k = op[1] % len(model)
                     v = model[k]
                     l.replace(v, op[2])
                     model[model.index(v)] = op[2]
+                    former.append(v)
                 elif kind == 'iter-remove':
                     idxs = [i for i in op[1] if i < len(model)]
                     if len(idxs) < 2 or len(idxs) >= len(model) or len(set(model)) != len(model):
@@ -449,6 +480,7 @@ def run_case(ctx, case):
                         return
                     refs[k].value = old_v
                     model[k] = old_v
+                    former.append(op[2])
                 elif kind == 'ref-set':
                     refs = list(l.iter_value_references())
                     k = op[1] % len(model)
@@ -456,6 +488,7 @@ def run_case(ctx, case):
                         ctx.violation('value-references-differ-from-list', 'step %d: refs %r model %r'
                                       % (step, [x.value for x in refs], model))
                         return
+                    former.append(model[k])
                     refs[k].value = op[2]
                     model[k] = op[2]
                 elif kind == 'ref-remove':
